@@ -1485,6 +1485,21 @@ def audit_static(ctx, case, h, ob):
                                 ctx.violation(case, what + " is not symmetric")
                             if any(sum(rows[i]) != 0 for i in range(N)):
                                 ctx.violation(case, what + " has a non-zero row sum")
+        # ---- extension round: the loops over the orders are inside the Lean model (maxOrder, incAllOrders, lapAllOrders,
+        # multiorderLaplacian); their answers are compared as a whole (keys in dict order, every matrix)
+        def dict_str(dct):
+            return "|".join(f"{plain(k)}={mat_str(dense(v)[2])}" for k, v in dct.items()) if len(dct) else "empty"
+
+        mo = guarded(h.max_order)
+        ob.add("maxord", "rej" if mo[0] == "exc" else str(plain(mo[1])))
+        if all_inc[0] == "ok":
+            st_, txt = guarded(dict_str, all_inc[1])
+            if st_ == "ok":
+                ob.add(f"incall {int(ai_keep)}", txt)
+        if all_lap[0] == "ok" and exact:
+            st_, txt = guarded(dict_str, all_lap[1])
+            if st_ == "ok":
+                ob.add(f"lapall {int(al_flag)}", txt)
         # the multi-order Laplacian without degree normalisation is the sigma-weighted sum of the per-order Laplacians
         if edges and exact and maxd >= 1 and all(d_ in lap_rows for d_ in range(1, maxd + 1)):
             sig = [1 + crc(salt, "sigma", d_) % 3 for d_ in range(1, maxd + 1)]
@@ -1502,6 +1517,49 @@ def audit_static(ctx, case, h, ob):
                 else:
                     expect_matrix(ctx, case, f"compute_multiorder_laplacian(sigmas={sig}, order_weighted=False, degree_weighted=False) "
                                   "= sum of sigma_d * Laplacian of order d", dd[1], want, N, N)
+                    ob.add("mlap " + hgxv.enc_list([Fraction(x) for x in sig]) + " 0 0", mat_str(dd[1][2]))
+        # every flag combination, sigma lists shorter / longer than the number of orders (zip cuts), empty, with zero /
+        # negative / fractional entries: compared with the model (exactly; within 1e-9 when the average degrees divide)
+        if exact:
+            import warnings
+            for rnd in range(2):
+                c = crc(salt, "mlapx", rnd)
+                ow, dw = bool(c & 1), bool(c & 2)
+                ln = max(0, maxd + [0, 0, 1, -1, 2, -maxd][(c >> 2) % 6])
+                sig = [Fraction((crc(salt, "sgx", rnd, k) % 13) - 4, [1, 1, 2, 4][(c >> 5) % 4]) for k in range(ln)]
+                conv = (c >> 7) % 4
+                sarg = [float(x) for x in sig]
+                if conv == 1:
+                    sarg = np.array(sarg)
+                elif conv == 2:
+                    sarg = tuple(sarg)
+                elif conv == 3 and all(x.denominator == 1 for x in sig):
+                    sarg = [int(x) for x in sig]
+                with warnings.catch_warnings():
+                    warnings.simplefilter("ignore")
+                    with np.errstate(all="ignore"):
+                        res = guarded(L.compute_multiorder_laplacian, h, sarg, flag_arg(ow, "mow", rnd), flag_arg(dw, "mdw", rnd))
+                ctx.count(f"multiorder_ow{int(ow)}_dw{int(dw)}")
+                line = "mlap " + hgxv.enc_list(sig) + f" {int(ow)} {int(dw)}"
+                used = min(ln, maxd)
+                absent = [d_ for d_ in range(1, used + 1) if not any(len(e) == d_ + 1 for e in edges)]
+                if not edges:
+                    ob.add(line, "rej" if res[0] == "exc" else "returned " + type(res[1]).__name__)
+                elif dw and absent:
+                    ctx.count("multiorder_undef_scale")
+                    ob.add(line, "undef")              # 1.0 / 0.0 average degree: nothing is claimed about the result
+                elif res[0] == "exc":
+                    ctx.violation(case, f"compute_multiorder_laplacian(sigmas={sarg!r}, {ow}, {dw}) raised {res[1]}")
+                elif used == 0:
+                    ctx.count("multiorder_empty_sum")
+                    ob.add(line, "zero" if (isinstance(res[1], int) and res[1] == 0) else "returned " + type(res[1]).__name__)
+                else:
+                    returned.append(res[1])
+                    dd = guarded(dense, res[1])
+                    if dd[0] == "exc":
+                        ctx.violation(case, f"compute_multiorder_laplacian(sigmas={sarg!r}, {ow}, {dw}): not a matrix")
+                    else:
+                        ob.add(line, ("~" if dw else "") + mat_str(dd[1][2]))
 
     scribble(returned)
     # the caller owns what it was given: after overwriting all of it, the hypergraph and a new answer are what they were
@@ -1524,11 +1582,36 @@ def audit_static(ctx, case, h, ob):
     return key, nontrivial, len(edges)
 
 
+def approx_same(a, b):
+    """two matrices in the wire format, entries equal within 1e-9 relative (1e-12 absolute)"""
+    try:
+        ra, rb = a.split(";"), b.split(";")
+        if len(ra) != len(rb):
+            return False
+        for x, y in zip(ra, rb):
+            xs, ys = x.split(","), y.split(",")
+            if len(xs) != len(ys):
+                return False
+            for u, v in zip(xs, ys):
+                if u == v:
+                    continue
+                fu, fv = Fraction(u), Fraction(v)
+                if abs(fu - fv) > Fraction(1, 10 ** 9) * max(abs(fu), abs(fv)) + Fraction(1, 10 ** 12):
+                    return False
+        return True
+    except (ValueError, ZeroDivisionError):
+        return False
+
+
 def compare(ctx, drv, case, ob):
     if drv is None:
         return
     ans = drv.batch(ob.lines)
     for ln, a, ex in zip(ob.lines, ans, ob.expect):
+        if ex.startswith("~"):                             # float division involved: entries agree within 1e-9 (relative)
+            if approx_same(a, ex[1:]):
+                continue
+            ex = ex[1:]
         if a != ex:
             ctx.disagree({**case, "line": ln}, f"model answers {a[:200]!r} to {ln[:60]!r}, implementation gives {ex[:200]!r}")
             break
@@ -1735,6 +1818,12 @@ def check_temporal(ctx, drv, case):
     compare(ctx, drv, case, ob)
 
 
+def tdict_str(mats):
+    """{order: {time: matrix}} in the wire format of the model (orders in dict order, times increasing)"""
+    items = [f"{plain(d)}@{plain(t)}={mat_str(dense(mt[t])[2])}" for d, mt in mats.items() for t in sorted(mt.keys())]
+    return "|".join(items) if items else "empty"
+
+
 def audit_temporal(ctx, case, th, ob):
     from hypergraphx.linalg import linalg as L
     kind = case["labels"]
@@ -1838,6 +1927,8 @@ def audit_temporal(ctx, case, th, ob):
                 for d_ in range(1, maxd + 1):
                     per_time(f"temporal_adjacency_matrices_all_orders[{d_}]", ("ok", (mats[d_], maps[d_])), by_order=d_)
                 del ob.lines[n_obs:], ob.expect[n_obs:]
+                if exact:                                # the whole answer against the model's loop over orders and times
+                    ob.add("tadjall -", tdict_str(mats))
         except Exception as e:  # noqa: BLE001
             ctx.violation(case, "temporal_adjacency_matrices_all_orders: malformed result " + type(e).__name__)
     # an explicit max_order (one above / one below the largest order): the orders 1..max_order, each as by order
@@ -1855,6 +1946,8 @@ def audit_temporal(ctx, case, th, ob):
                 n_obs = len(ob.lines)
                 per_time(f"temporal_adjacency_matrices_all_orders(max_order={mo})[{mo}]", ("ok", (mats[mo], maps[mo])), by_order=mo)
                 del ob.lines[n_obs:], ob.expect[n_obs:]
+                if exact:
+                    ob.add(f"tadjall {mo}", tdict_str(mats))
         except Exception as e:  # noqa: BLE001
             ctx.violation(case, f"temporal_adjacency_matrices_all_orders(max_order={mo}): malformed result " + type(e).__name__)
     multi = any(len([1 for (tt, _) in recs if tt == t]) >= 2 for t in times)
